@@ -98,6 +98,10 @@ func fnBitToVid() *run.Fn {
 func groupsVal(gs []*object.FromExtendedSpatialIDToQuadkeyAndVerticalID) w.Val {
 	out := make(w.List, 0, len(gs))
 	for _, g := range gs {
+		if g == nil { // only possible when the library hands back a slice the caller has scribbled over
+			out = append(out, w.Nil{})
+			continue
+		}
 		ps := make(w.List, 0, len(g.InnerIDList()))
 		for _, p := range g.InnerIDList() {
 			ps = append(ps, w.L(w.I(p[0]), w.I(p[1])))
@@ -693,8 +697,13 @@ func init() {
 	Scale["C17"] = 8000
 	Registry["C17"] = func(r *run.Runner, g *Gen, n int) {
 		oracles(r)
-		r.Register(fnCalc(), fnVidToBit(), fnBitToVid(), fnExtToQV(), fnSidToQV(), fnQVToExt(), fnQVToSid())
+		r.Register(fnCalc(), fnVidToBit(), fnBitToVid(), fnExtToQV(), fnSidToQV(), fnQVToExt(), fnQVToSid(), fnSequence())
+		var sq *seqBuilder // non-nil while the steps of one history are being collected
 		emit := func(fn string, tags []string, triv bool, args ...w.Val) run.Verdict {
+			if sq != nil {
+				sq.add(g, fn, args...)
+				return run.Verdict{}
+			}
 			vd := r.Run(run.Case{Prop: "C17", Fn: fn, Tags: tags, Trivial: triv, Args: args})
 			if vd.Class != "" && vd.Class != "-" { // where the finding class occurs, visible in the distribution
 				r.Sum.Tags[vd.Class+"@"+fn]++
@@ -703,6 +712,15 @@ func init() {
 				}
 			}
 			return vd
+		}
+		// flush: the collected steps become ONE case "Sequence" (executed back to back in one invocation, judged step by step)
+		flush := func(tags []string) {
+			b := sq
+			sq = nil
+			if b != nil && len(b.steps) > 0 {
+				r.Sum.Tags[Tag("steps=%d", len(b.steps))]++
+				emit("Sequence", tags, false, b.steps)
+			}
 		}
 		only := -1
 		if s := os.Getenv("C17_ONLY"); s != "" {
@@ -754,13 +772,16 @@ func init() {
 				emit("calcBitIndex", tags, zoom == 0, w.F(alt), w.I(zoom), w.F(mx), w.F(mn))
 				if g.Chance(0.2) { // related consecutive calls: exactly one argument changed each time, then the first call again
 					st := append(tags, "seq")
+					sq = &seqBuilder{}
 					mn2, mx2 := widen(g, mn, mx)
+					emit("calcBitIndex", st, zoom == 0, w.F(alt), w.I(zoom), w.F(mx), w.F(mn))
 					emit("calcBitIndex", st, zoom == 0, w.F(alt), w.I(zoom), w.F(mx), w.F(mn2))
 					emit("calcBitIndex", st, zoom == 0, w.F(alt), w.I(zoom), w.F(mx), w.F(mn))
 					emit("calcBitIndex", st, zoom == 0, w.F(alt), w.I(zoom), w.F(mx2), w.F(mn))
 					emit("calcBitIndex", st, false, w.F(alt), w.I(g.Zoom()), w.F(mx), w.F(mn))
 					emit("calcBitIndex", st, zoom == 0, w.F(Ulp(alt, g.Intn(3)-1)), w.I(zoom), w.F(mx), w.F(mn))
 					emit("calcBitIndex", st, zoom == 0, w.F(alt), w.I(zoom), w.F(mx), w.F(mn))
+					flush(st)
 				}
 			case k <= 5: // convertVerticallIDToBit
 				mx, mn := hr.mx, hr.mn
@@ -788,6 +809,8 @@ func init() {
 					fwd := func(v, f, oz int64, mx, mn float64) {
 						emit("convertVerticallIDToBit", st, oz == 0, w.I(v), w.I(f), w.I(oz), w.F(mx), w.F(mn))
 					}
+					sq = &seqBuilder{}
+					fwd(v, f, oz, mx, mn)
 					fwd(v, f, oz, mx, mn2)
 					fwd(v, clampF(v, f-1), oz, mx, mn) // its top face is the previous call's bottom face
 					fwd(v, f, oz, mx2, mn)
@@ -800,6 +823,8 @@ func init() {
 						fwd(v-1, clampF(v-1, f), oz, mx, mn)
 					}
 					fwd(v, f, oz, mx, mn)
+					fwd(v, f, oz, mx, mn) // the identical call twice in a row (the caller may have scribbled over the first result)
+					flush(st)
 				}
 			case k == 6 || k == 7: // convertBitToVerticalID
 				vz, kk, oz, rr, tags, _ := reverseCase(g)
@@ -817,6 +842,8 @@ func init() {
 					}
 					b2 := b + (a-b)*g.R.Float64()*0.5 // a narrower range keeps the cell, hence the run, short
 					a2 := a - (a-b)*g.R.Float64()*0.5
+					sq = &seqBuilder{}
+					rev(vz, kk, oz, a, b)
 					rev(vz, kk, oz, a, b2)
 					rev(vz, kk+1, oz, a, b)
 					rev(vz, kk, oz, a2, b)
@@ -828,6 +855,8 @@ func init() {
 						rev(vz+1, kk, oz, a, b)
 					}
 					rev(vz, kk, oz, a, b)
+					rev(vz, kk, oz, a, b)
+					flush(st)
 				}
 			case k == 8: // exported forward conversions (extended and spatial IDs)
 				nids := 1 + g.Intn(3)
@@ -902,9 +931,30 @@ func init() {
 				emit(fn, tags, false, w.Strs(ids), w.I(outH), w.I(oz), w.F(mx), w.F(mn))
 				if g.Chance(0.25) { // the same IDs again with one argument changed (a wider range keeps the runs short) / the identical call
 					st := append(tags, "seq")
+					sq = &seqBuilder{}
 					h2 := heightRange(g)
+					emit(fn, st, false, w.Strs(ids), w.I(outH), w.I(oz), w.F(mx), w.F(mn))
 					emit(fn, st, false, w.Strs(ids), w.I(outH), w.I(0), w.F(h2.mx), w.F(h2.mn))
 					emit(fn, st, false, w.Strs(ids), w.I(outH), w.I(oz), w.F(mx), w.F(mn))
+					emit(fn, st, false, w.Strs(ids), w.I(outH), w.I(oz), w.F(mx), w.F(mn)) // identical, twice in a row
+					// valid / invalid neighbours of the same call: reversed heights (twice), a zoom out of range, a malformed ID, then valid again
+					vmx, vmn := mx, mn
+					if reversed {
+						vmx, vmn = hr.mx, hr.mn
+					}
+					bad := append([]string{}, ids...)
+					bad[g.Intn(len(bad))] = "1/2"
+					emit(fn, st, false, w.Strs(ids), w.I(outH), w.I(oz), w.F(vmn), w.F(vmx))
+					emit(fn, st, false, w.Strs(ids), w.I(outH), w.I(oz), w.F(vmn), w.F(vmx))
+					emit(fn, st, false, w.Strs(ids), w.I(outH), w.I(oz), w.F(vmx), w.F(vmn))
+					emit(fn, st, false, w.Strs(ids), w.I(g.Pick(0, 32)), w.I(oz), w.F(vmx), w.F(vmn))
+					emit(fn, st, false, w.Strs(ids), w.I(outH), w.I(oz), w.F(vmx), w.F(vmn))
+					emit(fn, st, false, w.Strs(bad), w.I(outH), w.I(oz), w.F(vmx), w.F(vmn))
+					emit(fn, st, false, w.Strs(ids), w.I(outH), w.I(oz), w.F(vmx), w.F(vmn))
+					if len(ids) > 1 { // the same backing array with fewer / other IDs
+						emit(fn, st, false, w.Strs(ids[1:]), w.I(outH), w.I(oz), w.F(vmx), w.F(vmn))
+						emit(fn, st, false, w.Strs(ids), w.I(outH), w.I(oz), w.F(vmx), w.F(vmn))
+					}
 					if !reversed {
 						mn2, mx2 := widen(g, mn, mx)
 						emit(fn, st, false, w.Strs(ids), w.I(outH), w.I(oz), w.F(mx), w.F(mn2))
@@ -917,6 +967,7 @@ func init() {
 						}
 						emit(fn, st, false, w.Strs(ids), w.I(outH), w.I(oz), w.F(mx), w.F(mn))
 					}
+					flush(st)
 				}
 			default: // exported reverse conversions (extended and spatial IDs)
 				nit := 1 + g.Intn(3)
@@ -1028,8 +1079,27 @@ func init() {
 				call(tags, items, outH, outV)
 				if g.Chance(0.25) {
 					st := append(tags, "seq")
+					sq = &seqBuilder{}
+					call(st, items, outH, outV)
 					call(st, items, outH, 0)
 					call(st, items, outH, outV)
+					call(st, items, outH, outV) // identical, twice in a row
+					{                           // invalid neighbours built from the same elements: reversed heights, an index beyond 2^(vz+1), then the valid call again
+						e := its[0]
+						if e.mx > e.mn {
+							revd := append(w.List{w.L(w.I(e.qz), w.I(e.qk), w.I(e.vz), w.I(e.k), w.F(e.mn), w.F(e.mx))}, items[1:]...)
+							big := append(w.List{w.L(w.I(e.qz), w.I(e.qk), w.I(e.vz), w.I((int64(2)<<uint(e.vz))+3), w.F(e.mx), w.F(e.mn))}, items[1:]...)
+							call(st, revd, outH, outV)
+							call(st, revd, outH, outV)
+							call(st, items, outH, outV)
+							call(st, big, outH, outV)
+							call(st, items, outH, outV)
+							if len(items) > 1 {
+								call(st, items[:1], outH, outV)
+								call(st, items, outH, outV)
+							}
+						}
+					}
 					// the first element with a narrower range (one bound changed), then the original call again
 					e := its[0]
 					if e.mx > e.mn {
@@ -1046,6 +1116,7 @@ func init() {
 						}
 						call(st, items, outH, outV)
 					}
+					flush(st)
 				}
 			}
 		}
